@@ -701,6 +701,178 @@ theorem C10_rooted_items_fold (sess : Session) (uuid u0 path : String) (L : List
     rw [hnext, fsSet_fsSet]
     simp [List.append_assoc]
 
+/-! ### a whole list with plain items and the rooted items of one root, through `save(path, [...])` -/
+
+/-- every item is plain, or a direct child `m` of the one root `r` (object identity `rid`) -/
+def oneRootList (rid : Nat) (r : Tree) (items : List Item) : Prop :=
+  ∀ x ∈ items, plainItem x = true ∨ ∃ m, x = .rooted rid r [m]
+
+/-- the names of the rooted items, in list order -/
+def rootedNames : List Item → List String
+  | [] => []
+  | .rooted _ _ [m] :: rest => m :: rootedNames rest
+  | _ :: rest => rootedNames rest
+
+theorem oneRoot_tail {rid : Nat} {r : Tree} {x : Item} {xs : List Item} (h : oneRootList rid r (x :: xs)) : oneRootList rid r xs :=
+  fun y hy => h y (List.mem_cons_of_mem _ hy)
+
+theorem rootedRoots_oneRoot (rid : Nat) (r : Tree) : ∀ (items : List Item), oneRootList rid r items →
+    (items.foldlM rootedStep [(r.name, rid, r)] = some [(r.name, rid, r)]) ∧
+    (items.foldlM rootedStep [] = some (if rootedNames items = [] then [] else [(r.name, rid, r)]))
+  | [], _ => by simp [List.foldlM, rootedNames]
+  | x :: xs, h => by
+    obtain ⟨ih1, ih2⟩ := rootedRoots_oneRoot rid r xs (oneRoot_tail h)
+    cases h x List.mem_cons_self with
+    | inl hp =>
+      cases x with
+      | rooted a b c => simp [plainItem] at hp
+      | root t => simp only [List.foldlM, rootedStep, rootedNames]; exact ⟨ih1, ih2⟩
+      | unrooted n => simp only [List.foldlM, rootedStep, rootedNames]; exact ⟨ih1, ih2⟩
+      | array b => simp only [List.foldlM, rootedStep, rootedNames]; exact ⟨ih1, ih2⟩
+      | dict e => simp only [List.foldlM, rootedStep, rootedNames]; exact ⟨ih1, ih2⟩
+      | other => simp [plainItem] at hp
+    | inr hm =>
+      obtain ⟨m, rfl⟩ := hm
+      constructor
+      · simp only [List.foldlM, rootedStep, alookup, if_true]
+        exact ih1
+      · simp only [List.foldlM, rootedStep, alookup, List.nil_append, rootedNames]
+        simp only [reduceCtorEq, if_false]
+        exact ih1
+
+theorem asRooted_oneRoot (rid : Nat) (r : Tree) : ∀ (items : List Item), oneRootList rid r items →
+    items.filterMap Item.asRooted = (rootedNames items).map (fun m => (r, [m]))
+  | [], _ => rfl
+  | x :: xs, h => by
+    have ih := asRooted_oneRoot rid r xs (oneRoot_tail h)
+    cases h x List.mem_cons_self with
+    | inl hp =>
+      cases x with
+      | rooted a b c => simp [plainItem] at hp
+      | root t => simp only [List.filterMap_cons, Item.asRooted, rootedNames]; exact ih
+      | unrooted n => simp only [List.filterMap_cons, Item.asRooted, rootedNames]; exact ih
+      | array b => simp only [List.filterMap_cons, Item.asRooted, rootedNames]; exact ih
+      | dict e => simp only [List.filterMap_cons, Item.asRooted, rootedNames]; exact ih
+      | other => simp [plainItem] at hp
+    | inr hm =>
+      obtain ⟨m, rfl⟩ := hm
+      simp only [List.filterMap_cons, Item.asRooted, rootedNames, List.map_cons, ih]
+
+theorem isOther_oneRoot (rid : Nat) (r : Tree) : ∀ (items : List Item), oneRootList rid r items → items.any Item.isOther = false
+  | [], _ => rfl
+  | x :: xs, h => by
+    have ih := isOther_oneRoot rid r xs (oneRoot_tail h)
+    cases h x List.mem_cons_self with
+    | inl hp =>
+      cases x with
+      | other => simp [plainItem] at hp
+      | rooted a b c => simp [plainItem] at hp
+      | root t => simp only [List.any_cons, Item.isOther, Bool.false_or]; exact ih
+      | unrooted n => simp only [List.any_cons, Item.isOther, Bool.false_or]; exact ih
+      | array b => simp only [List.any_cons, Item.isOther, Bool.false_or]; exact ih
+      | dict e => simp only [List.any_cons, Item.isOther, Bool.false_or]; exact ih
+    | inr hm =>
+      obtain ⟨m, rfl⟩ := hm
+      simp only [List.any_cons, Item.isOther, Bool.false_or]; exact ih
+
+theorem copy_is_info (r : Tree) (hr : r.rootedWF CT DT = true) :
+    ({ rootInfoFor r.name with body := r.info.body } : NodeInfo) = r.info := by
+  simp only [Tree.rootedWF, Bool.and_eq_true, beq_iff_eq] at hr
+  cases r with
+  | mk i k =>
+    cases i with
+    | mk n c g b =>
+      simp only [Tree.info_mk] at hr
+      simp [rootInfoFor, Tree.name, Tree.info, hr.1.2, hr.2]
+
+/-- C10, a MIXED LIST through `save(path, [...])`: Roots, unrooted nodes, arrays, dicts and any number of rooted nodes that
+    are direct children of one root `r`, saved to a fresh path.  The file holds the header and exactly: the shared root of
+    the unrooted items (if any), the given Roots whole, then a copy of `r` (its name and metadata) holding exactly the
+    rooted nodes ALONE, in list order -/
+theorem C10_save_list_rooted (sess : Session) (uuid path : String) (fs : FS) (items : List Item) (rid : Nat) (r : Tree)
+    (hone : oneRootList rid r items) (hsome : rootedNames items ≠ []) (hfree : fsLookup fs path = none)
+    (hr : r.rootedWF CT DT = true)
+    (hsane : ∀ b, alookup "metadatabundle" r.info.body = some b →
+      b.isGroup = true ∧ (akeys b.kids).Nodup ∧ b.kids.all (fun kv => kv.2.gtype == some "metadata") = true)
+    (hwf : rootsWF [] (listRoots items ++ [.mk r.info []]) = true)
+    (hms : ∀ m ∈ rootedNames items, (findKid m r.kids).isSome = true ∧ m ≠ "metadatabundle")
+    (hnd : (rootedNames items).Nodup) :
+    saveInput sess uuid fs path (.list items) "w" .yes none
+      = .ok (fsSet fs path (.h5 (.group (headerAttrs sess uuid)
+          (encodeRoots (listRoots items ++ [.mk r.info ((rootedNames items).map (aloneOf r))]))))) := by
+  -- phases 1 and 2: the whole roots, then the copy of r
+  have hrL : r.name ∉ (listRoots items).map Tree.name := by
+    have key : ∀ (l : List Tree) (tk : List String), rootsWF tk (l ++ [Tree.mk r.info []]) = true → r.name ∉ l.map Tree.name := by
+      intro l
+      induction l with
+      | nil => intro _ _; simp
+      | cons x xs ihx =>
+        intro tk hx
+        simp only [List.cons_append, rootsWF, Bool.and_eq_true, Bool.not_eq_true', List.contains_eq_mem,
+          decide_eq_false_iff_not] at hx
+        simp only [List.map_cons, List.mem_cons, not_or]
+        refine ⟨?_, ihx _ hx.2⟩
+        intro e
+        have := rootsWF_names_not_taken (xs ++ [Tree.mk r.info []]) _ hx.2 r.name (by simp [Tree.name])
+        exact this (by simp [e])
+    exact key _ [] hwf
+  have hphase12 : ∃ fs1, (listRoots items).foldlM (fun fs t => save sess uuid fs path (.rooted t []) "a" .yes none) fs = .ok fs1 ∧
+      save sess uuid fs1 path (.rooted (.mk r.info []) []) "a" .yes none
+        = .ok (fsSet fs path (.h5 (.group (headerAttrs sess uuid) (encodeRoots (listRoots items ++ [.mk r.info []]))))) := by
+    have hC : (Tree.mk r.info []).rootedWF CT DT = true := by
+      have key : ∀ (l : List Tree) (tk : List String), rootsWF tk l = true → ∀ t ∈ l, t.rootedWF CT DT = true := by
+        intro l
+        induction l with
+        | nil => intro _ _ t ht; cases ht
+        | cons x xs ihx =>
+          intro tk hx t ht
+          simp only [rootsWF, Bool.and_eq_true] at hx
+          cases ht with
+          | head => exact hx.1.2
+          | tail _ h' => exact ihx _ hx.2 t h'
+      exact key _ [] hwf _ (by simp)
+    cases hL : listRoots items with
+    | nil =>
+      refine ⟨fs, by simp [List.foldlM, pure, Except.pure], ?_⟩
+      simpa [encodeRoots] using save_first sess uuid path fs (.mk r.info []) hfree hC
+    | cons t ts =>
+      rw [hL] at hwf hrL
+      have hwL : rootsWF [] (t :: ts) = true := by
+        have key : ∀ (l : List Tree) (tk : List String), rootsWF tk (l ++ [Tree.mk r.info []]) = true → rootsWF tk l = true := by
+          intro l
+          induction l with
+          | nil => intro _ _; rfl
+          | cons x xs ihx =>
+            intro tk hx
+            simp only [List.cons_append, rootsWF, Bool.and_eq_true] at hx ⊢
+            exact ⟨hx.1, ihx _ hx.2⟩
+        exact key _ [] hwf
+      have hw' := hwL
+      simp only [rootsWF, Bool.and_eq_true] at hw'
+      have h1 := save_first sess uuid path fs t hfree hw'.1.2
+      have hd : rootsWF [] [t] = true := by
+        simp only [rootsWF, Bool.and_eq_true]; exact ⟨⟨by simp, hw'.1.2⟩, trivial⟩
+      have h2 := save_rest sess uuid uuid path ts [t] [t.name] _ hd (by simp) hw'.2 (by simp) (fsLookup_fsSet fs path _)
+      refine ⟨fsSet fs path (.h5 (.group (headerAttrs sess uuid) (encodeRoots (t :: ts)))), ?_, ?_⟩
+      · simp only [List.foldlM, h1, bind, Except.bind]
+        rw [h2, fsSet_fsSet]; rfl
+      · have hCt : rootsWF (List.map Tree.name (t :: ts)) [Tree.mk r.info []] = true := by
+          simp only [rootsWF, Bool.and_eq_true, Bool.not_eq_true', List.contains_eq_mem, decide_eq_false_iff_not]
+          exact ⟨⟨hrL, hC⟩, trivial⟩
+        have := save_next sess uuid uuid path (fsSet fs path (.h5 (.group (headerAttrs sess uuid) (encodeRoots (t :: ts)))))
+          (t :: ts) (.mk r.info []) ((t :: ts).map Tree.name) hwL (by simp) hCt (fun n hn => hn) (fsLookup_fsSet _ _ _)
+        rw [this, fsSet_fsSet]
+  obtain ⟨fs1, hp1, hp2⟩ := hphase12
+  -- phase 3
+  have hfold := C10_rooted_items_fold sess uuid uuid path (listRoots items) r hr hsane (rootedNames items) []
+    (fsSet fs path (.h5 (.group (headerAttrs sess uuid) (encodeRoots (listRoots items ++ [.mk r.info []])))))
+    hwf hrL hms hnd (fun m _ => by simp [names]) (by simp [names]) (fsLookup_fsSet _ _ _)
+  have hrr := (rootedRoots_oneRoot rid r items hone).2
+  simp only [hsome, if_false] at hrr
+  simp only [saveInput, classify_w, hfree, Option.isSome_none, Bool.and_false, Bool.false_eq_true, if_false, saveList,
+    isOther_oneRoot rid r items hone, rootedRoots, hrr, asRooted_oneRoot rid r items hone, bind, Except.bind, pure,
+    Except.pure, hp1, List.foldlM, copy_is_info r hr, hp2, hfold, fsSet_fsSet, List.nil_append]
+
 -- non-vacuity of `C10_rooted_items_fold`: the rooted items `a` and `onlyrt` of the example runtime tree `exR` (whose root
 -- carries a two-entry metadata bundle), written after another tree, meet every hypothesis
 example : rootsWF [] ([exTree] ++ [.mk exR.info []]) = true ∧ exR.rootedWF CT DT = true ∧
@@ -719,6 +891,23 @@ def exItems : List Item :=
 example : exItems.all plainItem = true ∧ rootsWF [] (listRoots exItems) = true ∧
     (listRoots exItems).map Tree.name = ["root_savedlist", "r", "wurzel é"] ∧
     ((listRoots exItems).headD exF).kids.map Tree.name = ["loose", "array_0"] := by decide
+
+-- non-vacuity of `C10_save_list_rooted`: a Root, a rooted child of `exR`, an array, an unrooted node and another rooted
+-- child of `exR` meet every hypothesis; the file then holds root_savedlist, the given Root, and the copy of `exR`
+def exMixed : List Item :=
+  [.root exTree, .rooted 7 exR ["a"], .array [("data", .dataset [("units", .str "")] (.tok "t"))],
+   .unrooted ⟨"loose", "Node", "node", []⟩, .rooted 7 exR ["onlyrt"]]
+example : oneRootList 7 exR exMixed := by
+  intro x hx
+  simp only [exMixed, List.mem_cons, List.not_mem_nil, or_false] at hx
+  rcases hx with rfl | rfl | rfl | rfl | rfl
+  · left; rfl
+  · right; exact ⟨_, rfl⟩
+  · left; rfl
+  · left; rfl
+  · right; exact ⟨_, rfl⟩
+example : rootedNames exMixed = ["a", "onlyrt"] ∧ rootsWF [] (listRoots exMixed ++ [.mk exR.info []]) = true ∧
+    (listRoots exMixed).map Tree.name = ["root_savedlist", "wurzel é"] ∧ exR.rootedWF CT DT = true := by decide
 
 -- non-vacuity
 example : rootsWF [] [exF, exTree] = true := by decide
